@@ -253,6 +253,29 @@ impl Property for C10 {
                 }
             }
         }
+        // the same integer schemas as one alternative of a two-type schema
+        {
+            let small: Vec<i128> = vec![0, 1, 5, -1, 127, 128, 255, 256, -128, -129, 65535];
+            let mut lo2: Vec<Vec<(&str, i128)>> = vec![vec![]];
+            let mut up2: Vec<Vec<(&str, i128)>> = vec![vec![]];
+            for v in &small {
+                lo2.push(vec![("minimum", *v)]);
+                up2.push(vec![("maximum", *v)]);
+            }
+            for f in &formats {
+                for lo in &lo2 {
+                    for up in &up2 {
+                        for w in ["string", "boolean"] {
+                            let mut kv = lo.clone();
+                            kv.extend(up.iter().cloned());
+                            let mut c = int_schema(*f, &kv, None);
+                            c["with"] = json!(w);
+                            out.push(c);
+                        }
+                    }
+                }
+            }
+        }
         // format tables
         let known = ["uuid", "date", "date-time", "ip", "ipv4", "ipv6"];
         for f in known {
@@ -280,7 +303,17 @@ impl Property for C10 {
         let Some(schema) = case_v.get("schema").and_then(|s| s.as_object()) else {
             return invalid_unit("no schema".into());
         };
-        let case = Case { history: vec![Step::Root { doc: json!({"definitions": {"T": Value::Object(schema.clone())}}) }], roots: vec![RootSel::Ref { r: "#/definitions/T".into() }], ..Default::default() };
+        // `with`: the schema also admits a second JSON type (`type: [integer, <with>]`); the integer
+        // alternative of the resulting union is then the type under observation
+        let with = case_v.get("with").and_then(|w| w.as_str());
+        let mut effective = schema.clone();
+        if let Some(w) = with {
+            if schema.get("type") != Some(&json!("integer")) || !matches!(w, "string" | "boolean") {
+                return invalid_unit("with".into());
+            }
+            effective.insert("type".into(), json!(["integer", w]));
+        }
+        let case = Case { history: vec![Step::Root { doc: json!({"definitions": {"T": Value::Object(effective)}}) }], roots: vec![RootSel::Ref { r: "#/definitions/T".into() }], ..Default::default() };
         let mut ing = ingest::ingest(&case);
         unit.outcome = ing.outcome.clone();
         unit.message = ing.message.clone();
@@ -314,6 +347,7 @@ impl Property for C10 {
             }
             "builtin" => f.builtin.clone(),
             "string" => Some("String".into()),
+            "enum" if with.is_some() => f.variants.iter().flat_map(|v| v.tuple.iter().map(|t| t.1.replace(' ', ""))).find(|t| type_range(t).is_some()).or(Some(format!("<union without an integer alternative: {:?}>", f.variants.iter().map(|v| v.tuple.clone()).collect::<Vec<_>>()))),
             other => Some(format!("<{other}:{}>", f.ident)),
         });
         let Some(chosen) = chosen else {
@@ -411,6 +445,7 @@ impl Property for C10 {
             && s.get("format").map(|f| f.is_string()).unwrap_or(true)
             && ["minimum", "maximum", "exclusiveMinimum", "exclusiveMaximum", "default"].iter().all(|k| s.get(*k).map(|v| as_parsed(v).is_some()).unwrap_or(true))
             && s.get("multipleOf").map(|m| m == &json!(2)).unwrap_or(true)
+            && case.get("with").map(|w| (w == "string" || w == "boolean") && s.get("type") == Some(&json!("integer"))).unwrap_or(true)
     }
     fn predicate(&self, name: &str, case: &Value, v: &Violation) -> bool {
         super::predicates::check(name, case, v)
